@@ -786,51 +786,78 @@ def negLength (ctx : Ctx) (kvs : List (String × Json)) (n : Nat) (d : Desc) : G
     let s2 := if hasKey s1 "type" then s1 else s1 ++ [("type", .str "string")]
     Gen.guard (Gen.ask (.schema (.obj s2)) fun v => emitUnseen v d ctx)
 
-/-- one iteration of the negative loop of cover_schema_iter (inside `_ignore_unfixable(), ctx.at(key)`);
+/-- which arm of the `if key == … elif …` chain of the negative loop a keyword selects -/
+inductive Arm where
+  | enum | const | type | properties | patternProperties | items | pattern | format | maximum | minimum
+  | exclusiveMaximum | exclusiveMinimum | multipleOf | minLength | maxLength | uniqueItems | required
+  | additionalProperties | allOf | anyOf | other
+  deriving DecidableEq, Repr
+
+def armOf (key : String) : Arm :=
+  if key == "enum" then .enum else if key == "const" then .const else if key == "type" then .type
+  else if key == "properties" then .properties else if key == "patternProperties" then .patternProperties
+  else if key == "items" then .items else if key == "pattern" then .pattern else if key == "format" then .format
+  else if key == "maximum" then .maximum else if key == "minimum" then .minimum
+  else if key == "exclusiveMaximum" then .exclusiveMaximum else if key == "exclusiveMinimum" then .exclusiveMinimum
+  else if key == "multipleOf" then .multipleOf else if key == "minLength" then .minLength
+  else if key == "maxLength" then .maxLength else if key == "uniqueItems" then .uniqueItems
+  else if key == "required" then .required else if key == "additionalProperties" then .additionalProperties
+  else if key == "allOf" then .allOf else if key == "anyOf" || key == "oneOf" then .anyOf else .other
+
+/-- one iteration of the negative loop of cover_schema_iter (inside `_ignore_unfixable(), ctx.at(key)`: `ctx` is
+    the context already extended by the key);
     `vx`: the exclusive-bound site (repaired: the draft-4 booleans are not emitted as values) -/
-def negArm (rec : Ctx → Json → Gen) (vx : Variant) (ctx0 : Ctx) (kvs : List (String × Json)) (types : List String)
-    (key : String) (value : Json) : Gen :=
-  let ctx := ctx0.at key
-  if key == "enum" then negEnum ctx value false
-  else if key == "const" then negEnum ctx (.arr [value]) true
-  else if key == "type" then negType ctx value
-  else if key == "properties" then needTemplate kvs fun t => negProperties rec ctx t value
-  else if key == "patternProperties" then Gen.unsupported
-  else if key == "items" then (match value with | .obj _ => negItems rec ctx value | _ => Gen.nil)
-  else if key == "pattern" then
+def negArmTag (rec : Ctx → Json → Gen) (vx : Variant) (ctx : Ctx) (kvs : List (String × Json)) (types : List String)
+    (tag : Arm) (value : Json) : Gen :=
+  match tag with
+  | .enum => negEnum ctx value false
+  | .const => negEnum ctx (.arr [value]) true
+  | .type => negType ctx value
+  | .properties => needTemplate kvs fun t => negProperties rec ctx t value
+  | .patternProperties => Gen.unsupported
+  | .items => (match value with | .obj _ => negItems rec ctx value | _ => Gen.nil)
+  | .pattern =>
     (match value with
      | .str _ => Gen.ask (.strategy "negative_pattern" value) fun v => Gen.emit [GV.neg v .notMatchingPattern ctx.path]
      | _ => Gen.unsupported)
-  else if key == "format" then
+  | .format =>
     if types.contains "string" || types.isEmpty then
       (match value with
        | .str _ => Gen.ask (.strategy "negative_format" value) fun v => Gen.emit [GV.neg v .notMatchingFormat ctx.path]
        | _ => Gen.unsupported)
     else Gen.nil
-  else if key == "maximum" then
+  | .maximum =>
     (match pyInt? value with
      | some n =>
        Gen.withSeen fun seen =>
          if seenHas seen (.raw (.num (n + 1) 0)) then Gen.nil
          else Gen.seq (Gen.emit [GV.neg (.num (n + 1) 0) .greaterThanMaximum ctx.path]) (Gen.addSeen (.raw (.num (n + 1) 0)))
      | none => Gen.unsupported)
-  else if key == "minimum" then
+  | .minimum =>
     (match pyInt? value with
      | some n =>
        Gen.withSeen fun seen =>
          if seenHas seen (.raw (.num (n - 1) 0)) then Gen.nil
          else Gen.seq (Gen.emit [GV.neg (.num (n - 1) 0) .smallerThanMinimum ctx.path]) (Gen.addSeen (.raw (.num (n - 1) 0)))
      | none => Gen.unsupported)
-  else if key == "exclusiveMaximum" then
-    -- `key == "exclusiveMaximum" or key == "exclusiveMinimum" and value not in seen`: no `seen` test on this side
+  | .exclusiveMaximum =>
+    -- asFound: `key == "exclusiveMaximum" or key == "exclusiveMinimum" and value not in seen` — no `seen` test on this
+    -- side, and the draft-4 boolean is emitted as a value; repaired: `key in (…) and not isinstance(value, bool) and
+    -- value not in seen`
     (match value with
      | .bool _ =>
        (match vx with
         | .asFound => Gen.seq (Gen.emit [GV.neg value .greaterThanMaximum ctx.path]) (Gen.addSeen (.raw value))
         | .repaired => Gen.nil)
-     | .num _ _ => Gen.seq (Gen.emit [GV.neg value .greaterThanMaximum ctx.path]) (Gen.addSeen (.raw value))
+     | .num _ _ =>
+       (match vx with
+        | .asFound => Gen.seq (Gen.emit [GV.neg value .greaterThanMaximum ctx.path]) (Gen.addSeen (.raw value))
+        | .repaired =>
+          Gen.withSeen fun seen =>
+            if seenHas seen (.raw value) then Gen.nil
+            else Gen.seq (Gen.emit [GV.neg value .greaterThanMaximum ctx.path]) (Gen.addSeen (.raw value)))
      | _ => Gen.unsupported)
-  else if key == "exclusiveMinimum" then
+  | .exclusiveMinimum =>
     (match value with
      | .bool _ =>
        (match vx with
@@ -844,27 +871,27 @@ def negArm (rec : Ctx → Json → Gen) (vx : Variant) (ctx0 : Ctx) (kvs : List 
          if seenHas seen (.raw value) then Gen.nil
          else Gen.seq (Gen.emit [GV.neg value .smallerThanMinimum ctx.path]) (Gen.addSeen (.raw value))
      | _ => Gen.unsupported)
-  else if key == "multipleOf" then
+  | .multipleOf =>
     Gen.ask (.schema (withNegatedKey kvs "multipleOf" value)) fun v => emitUnseen v .nonMultiple ctx
-  else if key == "minLength" then
+  | .minLength =>
     (match value with
      | .num m 0 => if 0 < m && m < BUFFER then negLength ctx kvs (m.toNat - 1) .smallerThanMinLength else Gen.nil
      | _ => Gen.unsupported)
-  else if key == "maxLength" then
+  | .maxLength =>
     (match value with
      | .num m 0 =>
        if m < 0 then Gen.unsupported
        else if m < BUFFER then negLength ctx kvs (m.toNat + 1) .largerThanMaxLength else Gen.nil
      | _ => Gen.unsupported)
-  else if key == "uniqueItems" then
+  | .uniqueItems =>
     if truthy value then
       Gen.ask (.schema (.obj (setKey "maxItems" (jnat 1) (setKey "minItems" (jnat 1) (setKey "type" (.str "array") kvs)))))
         fun u => match u with
           | .arr xs => Gen.emit [GV.neg (.arr (xs ++ xs)) .nonUnique ctx.path]
           | _ => Gen.unsupported
     else Gen.nil
-  else if key == "required" then needTemplate kvs fun t => negRequired ctx t value
-  else if key == "additionalProperties" then
+  | .required => needTemplate kvs fun t => negRequired ctx t value
+  | .additionalProperties =>
     if !(truthy value) && !(hasKey kvs "pattern") &&
        (match getK kvs "type" with | none => true | some (.str "object") => true | _ => false) then
       needTemplate kvs fun t =>
@@ -872,15 +899,19 @@ def negArm (rec : Ctx → Json → Gen) (vx : Variant) (ctx0 : Ctx) (kvs : List 
         | .obj tkvs => Gen.emit [GV.neg (.obj (setKey UNKNOWN_KEY (.num 42 0) tkvs)) .unexpectedProperties ctx.path]
         | _ => Gen.unsupported
     else Gen.nil
-  else if key == "allOf" then
+  | .allOf =>
     (match value with
      | .arr [x] => rec (ctx.withNegative.at "0") x
      | _ => Gen.unsupported)       -- canonicalish(schema): not modelled
-  else if key == "anyOf" || key == "oneOf" then
+  | .anyOf =>
     (match value with
      | .arr xs => Gen.forEach xs.zipIdx fun (sub, i) => rec (ctx.withNegative.at (toString i)) sub
      | _ => Gen.unsupported)
-  else Gen.nil
+  | .other => Gen.nil
+
+def negArm (rec : Ctx → Json → Gen) (vx : Variant) (ctx : Ctx) (kvs : List (String × Json)) (types : List String)
+    (key : String) (value : Json) : Gen :=
+  negArmTag rec vx ctx kvs types (armOf key) value
 
 /-! ## `_cover_positive_for_type` and `cover_schema_iter` -/
 
@@ -946,7 +977,7 @@ def coverCore (rec : Ctx → Json → Gen) (vs : Vs) (ctx : Ctx) (kvs : List (St
   Gen.seq (if types.isEmpty then Gen.guard (positiveForType rec vs ctx kvs none) else Gen.nil)
     (Gen.seq (Gen.forEach types fun ty => Gen.guard (positiveForType rec vs ctx kvs (some ty)))
       (if ctx.neg then
-         Gen.scopedTmpl (Gen.forEach kvs fun (key, value) => Gen.guard (negArm rec vs.excl ctx kvs types key value))
+         Gen.scopedTmpl (Gen.forEach kvs fun (key, value) => Gen.guard (negArm rec vs.excl (ctx.at key) kvs types key value))
        else Gen.nil))
 
 /-- the body of cover_schema_iter with the recursive call as a parameter (uses the current `seen` set) -/
